@@ -38,7 +38,7 @@ Bound   == TLCGet("level") <= MaxLevel
 \* exhaustive runs: names are part of the state (the invariants about names are checked on every history)
 ViewAll == vars
 \* emission: one node per Vars value (absolute names hidden), act hidden
-ViewEmit == <<pat, sym, [cc \in All |-> <<at[cc].o, at[cc].k, at[cc].ps, at[cc].fx>>], conv, ecAdded, gflag>>
+ViewEmit == <<pat, sym, [cc \in All |-> <<at[cc].o, at[cc].k, at[cc].ps, at[cc].fx, at[cc].ed>>], conv, ecAdded, gflag, zcells>>
 Emit      == PrintT(ToJson([lvl |-> TLCGet("level"), from |-> Vars, act |-> act', to |-> Vars']))
 EmitState == PrintT(ToJson([st |-> Vars, obs |-> Obs]))
 ASSUME PrintT(ToJson([config |-> [all |-> SortedCells(All), dom |-> SortedCells(Dom)]]))
